@@ -13,7 +13,8 @@ Mirrored Go code (as it is after the `fix:` commits listed in notes/C11.md):
 * `internal/limits/limits.go`: `Group.Init` (which directive list feeds which scope, `g.ip/source/dest == nil`
   iff the list is empty), `TakeMsg`, `TakeDest`, `ReleaseMsg`, `ReleaseDest` — `takeMsgProg`, `takeDestProg`,
   `releaseMsgProg`, `releaseDestProg`: the exact sequence of limiter operations of each call, every
-  acquisition paired with the roll-back the code performs when that acquisition fails.
+  acquisition paired with the roll-back the code performs when that acquisition fails.  The key of the per-IP
+  bucket set is derived from the address separately at the three places (`IpKeys`: take, roll-back, release).
 * the permit lifecycles of `internal/endpoint/smtp/session.go` (`Mail`, `Rcpt`, `startDelivery`, `Data`,
   `Reset`, `Logout`, `releaseLimits`, together with go-smtp's `fromReceived`/`recipients` gating) and of
   `internal/target/remote` (`Target.Start`, `AddRcpt` → `connectionForDomain` → `conn.Rcpt` with the RCPT
@@ -88,6 +89,28 @@ def relLims : List LimSt → Option (List LimSt)
 inductive Sc | ip | src | dst
 deriving DecidableEq, Repr
 
+/-- How `limits.go` derives the map key of the per-IP bucket set (`g.ip`) from the source address, at each of
+the three places that touch that set.  Addresses and keys are ids; the functions are whatever the code
+computes (`addr.String()` on the pinned tree: an IPv4 address and its IPv4-mapped IPv6 form share a key, every
+other address has its own) — the harness reads them off the real bucket table and puts them on the op line.
+Nothing in the model assumes they agree: agreement is the hypothesis `IpKeys.Lawful` of the theorems, and
+`C11_key_law_needed` shows what happens without it. -/
+structure IpKeys where
+  /-- `TakeMsg`: `g.ip.TakeContext(ctx, <key>)` -/
+  take : Nat → Nat
+  /-- `TakeMsg`, roll-back when the `source` acquisition fails: `g.ip.Release(<key>)` -/
+  undo : Nat → Nat
+  /-- `ReleaseMsg`: `g.ip.Release(<key>)` -/
+  rel : Nat → Nat
+
+instance : Repr IpKeys := ⟨fun _ _ => "<ipkeys>"⟩
+
+/-- Every address is its own key. -/
+def IpKeys.same : IpKeys := { take := fun a => a, undo := fun a => a, rel := fun a => a }
+
+/-- `TakeMsg`, its roll-back and `ReleaseMsg` use the same key function. -/
+def IpKeys.Lawful (k : IpKeys) : Prop := ∀ a, k.undo a = k.take a ∧ k.rel a = k.take a
+
 structure Cfg where
   all : List Lim
   ip : List Lim
@@ -96,6 +119,8 @@ structure Cfg where
   /-- `ReapInterval`, in the time unit of `Bucket.age`; negative = every bucket is older. -/
   reap : Int
   maxB : Nat
+  /-- key derivation of the `ip` scope -/
+  keys : IpKeys := IpKeys.same
 deriving Repr
 
 /-- `Group.Init`: the constructor list of each keyed scope. -/
@@ -186,15 +211,18 @@ def takeSet (c : Cfg) (sc : Sc) (k : Nat) (outer : List MOp) : TakeProg :=
 
 def relSet (c : Cfg) (sc : Sc) (k : Nat) : List MOp := if c.on sc then [MOp.bsRel sc k] else []
 
-/-- `Group.TakeMsg(ctx, addr, sourceDomain)`. -/
+/-- `Group.TakeMsg(ctx, addr, sourceDomain)`; `ip` is the address, the bucket keys are what `c.keys` derives
+from it at each place. -/
 def takeMsgProg (c : Cfg) (ip dom : Nat) : TakeProg :=
-  takeGlob c ++ takeSet c .ip ip (relGAll c) ++ takeSet c .src dom (relGAll c ++ relSet c .ip ip)
+  takeGlob c ++ takeSet c .ip (c.keys.take ip) (relGAll c) ++
+    takeSet c .src dom (relGAll c ++ relSet c .ip (c.keys.undo ip))
 
 /-- `Group.TakeDest(ctx, domain)`. -/
 def takeDestProg (c : Cfg) (d : Nat) : TakeProg := takeSet c .dst d []
 
 /-- `Group.ReleaseMsg(addr, sourceDomain)`. -/
-def releaseMsgProg (c : Cfg) (ip dom : Nat) : List MOp := relGAll c ++ relSet c .ip ip ++ relSet c .src dom
+def releaseMsgProg (c : Cfg) (ip dom : Nat) : List MOp :=
+  relGAll c ++ relSet c .ip (c.keys.rel ip) ++ relSet c .src dom
 
 /-- `Group.ReleaseDest(domain)`. -/
 def releaseDestProg (c : Cfg) (d : Nat) : List MOp := relSet c .dst d
